@@ -25,5 +25,5 @@ def queries():
                 qs.append(Q("sched-same%d-data%d-depth%d" % (same, wd, dx), "C05_seq.c", SRCS,
                             defs={"MODE": 1, "SAME": same, "WITHDATA": wd, "DEPTHX": dx, "VERIF_YIELD": None,
                                   "VERIF_HCAP": 3, "VERIF_KEY4": None},
-                            unwind=8, unwindset=["bidib_build_message_hex_string.0:24"], instr=R, tier="quick" if quick else "thorough"))
+                            unwind=8, unwindset=["bidib_build_message_hex_string.0:24", "memcpy.0:24"], instr=R, tier="quick" if quick else "thorough"))
     return qs
